@@ -332,7 +332,14 @@ void dispatchArgs(GenState &gs, Node *c) {
   }
 
   gs.getSymbols().argnum++;
+  std::size_t known_registers = gs.getSymbols().register_state.size();
   gs.getSymbols().fetchVariableRegister(std::string(c->tok));
+  // every parameter needs a register of its own: a repeated name would make
+  // the argument count exceed the frame the callers allocate
+  if (gs.getSymbols().register_state.size() == known_registers)
+    gs.err(CodegenResult::Error::Type::PARSE_ERROR,
+           "parameter '" + c->tok + "' of program '" + gs.getSymbols().name +
+               "' is declared more than once");
 }
 
 // dispatch a function definition
